@@ -719,11 +719,11 @@ func Main(args []string) int {
 			}
 			if sameNodes(j, y) {
 				lsame++
-			} else if len(j) == 1 && len(y) == 1 && (strings.HasPrefix(j[0], y[0]+"/") || strings.HasPrefix(y[0], j[0]+"/")) {
+			} else if lessPrecise(j, y) || lessPrecise(y, j) {
 				// one spelling names a node, the other only a node above it: not a choice between several faults (those
 				// are siblings or unrelated), the position got less precise in one spelling
 				ldiff++
-				r.Violate("position-less-precise-in-one-spelling", fmt.Sprintf("%s: the JSON spelling reports %s, the YAML spelling %s", k, j[0], y[0]), map[string]any{"case": k, "json_spelling_reports": j, "yaml_spelling_reports": y})
+				r.Violate("position-less-precise-in-one-spelling", fmt.Sprintf("%s: the JSON spelling reports %v, the YAML spelling %v", k, j, y), map[string]any{"case": k, "json_spelling_reports": j, "yaml_spelling_reports": y})
 			} else {
 				ldiff++
 				if ldiff <= 2 {
@@ -1180,4 +1180,24 @@ func fuzzStage(r *ev.Run, scratch string) {
 		r.Violate("fuzz:"+panicClass(first)+":"+site, "coverage-guided document mutation found a crashing input: "+first, map[string]any{"input_file_go_fuzz_corpus_format": p, "failure": tailStr(out, 1500)})
 	}
 	os.RemoveAll(filepath.Join(dir, "fuzz", "c11", "testdata"))
+}
+
+
+// lessPrecise: a names one node; b (the nodes starting at the position the other spelling reports - in block style a
+// mapping and its first member start at the same place) holds a node strictly above it and neither that node nor
+// anything below it.
+func lessPrecise(a, b []string) bool {
+	if len(a) != 1 || len(b) == 0 {
+		return false
+	}
+	above := false
+	for _, n := range b {
+		if n == a[0] || strings.HasPrefix(n, a[0]+"/") {
+			return false
+		}
+		if strings.HasPrefix(a[0], n+"/") {
+			above = true
+		}
+	}
+	return above
 }
